@@ -679,8 +679,52 @@ def correspondence(rng, tier):
             kl.add('{| c_op := %s; c_x := %s; c_oop := %s; c_alias := %s; c_sep := %s |}'
                    % (term, C.qss(vals(x)), C.qss(oop), C.qss(al), C.qss(sep)),
                    {'builder': 'ccklce', 'space': repr(sp), 'x': vals(x)}, (term, str(vals(x))))
+    # operators whose _call has no `out` (default in-place bridge): the function value on this very input
+    # is supplied by the implementation, the data flow of the bridge is what is compared
+    fn = C.CaseSet('alias_oopfun', ['C10.Model', 'C10.Corr'], 'check', 'case')
+    S = odl.solvers
+    sp2 = odl.ProductSpace(odl.ProductSpace(odl.rn(3), 2), 2)
+    ops = []
+    for exps in ((1, 1), (1, 2), (1, np.inf)):
+        f = S.NuclearNorm(sp2, outer_exp=exps[0], singular_vector_exp=exps[1])
+        ops.append(('nuclear-%s' % (exps[1],), f.proximal(rng.choice(DY)), sp2))
+    r3 = odl.rn(3)
+    ops.append(('realpart', odl.RealPart(r3), r3))
+    ops.append(('simple-functional-prox',
+                S.simple_functional(r3, fcall=lambda x: 0.0,
+                                    prox=lambda sig: _OopOnly(r3)).proximal(1.0),
+                r3))
+    ops.append(('oop-only', _OopOnly(r3), r3))
+    for nm, P, sp in ops:
+        for _ in range(nin):
+            x = rnd_el(rng, sp)
+            try:
+                term = reify(P)
+            except Unmodelled:
+                if type(P)._call_has_out:
+                    stats['unmodelled'][nm] = 1
+                    continue
+                term = '(OLeaf (LFun (fun _ => %s)))' % C.qss(vals(P(x)))
+            oop, al, sep, intact, proto = observe(P, x)
+            fn.add('{| c_op := %s; c_x := %s; c_oop := %s; c_alias := %s; c_sep := %s |}'
+                   % (term, C.qss(vals(x)), C.qss(oop), C.qss(al), C.qss(sep)),
+                   {'builder': nm, 'space': repr(sp), 'x': vals(x)}, (nm, str(vals(x))))
     correspondence.stats = stats
-    return [cs, kl]
+    return [cs, kl, fn]
+
+
+def _OopOnly(space):
+    import odl
+
+    class OopOnly(odl.Operator):
+        """user-style operator implemented out of place only"""
+
+        def __init__(self):
+            super(OopOnly, self).__init__(space, space, linear=False)
+
+        def _call(self, x):
+            return x.ufuncs.absolute() + 1
+    return OopOnly()
 
 
 # ------------------------------------------------------------------- probes
